@@ -23,26 +23,27 @@ type acctCtx struct {
 }
 
 type acctChoice struct {
-	idSrc    string  // "ref" | "alt"                        block the answer claims to be about
-	seqBump  bool    // the trusted id names seqno+1 (and the answer echoes it)
-	idFile   bool    // one bit of file_hash of the id in the answer is changed
-	sbFile   bool    // one bit of file_hash of shardblk is changed
-	sbSeq    bool    // shardblk names seqno+1
-	sbSrc    string  // "sb" | "alt" | "sib"                 shardblk
-	spForm   string  // "honest" | "missing" | "trunc" | "one_root"
-	spHdr    string  // "ref" | "alt"                        shard proof: which masterchain block
-	spState  string  // "ref" | "alt"                        shard proof: which masterchain state
-	spPruned bool    // shard proof: the BinTree leaf is pruned
-	hdrSrc   string  // "sb" | "alt" | "sib"                 proof root 1
-	hdrKeep  string  // "full" | "no_su" | "no_info"
-	stSrc    string  // "sb" | "alt" | "sib"                 proof root 2
-	path     string  // "addr" | "other" | "cut"
-	leaf     string  // "" | "stale" | "rehashed"
-	pForm    string  // "two" | "one_root" | "three" | "swapped" | "not_exotic" | "trunc" | "garbage" | "empty"
-	state    string  // "own" | "other" | "modified" | "empty" | "some"
-	sForm    string  // "one" | "trunc" | "two_roots"
-	extra    float64 // share of further cells revealed in the state proof (still honest: a proof may reveal more than needed)
-	opt      bocOpt
+	idSrc      string  // "ref" | "alt"                        block the answer claims to be about
+	seqBump    bool    // the trusted id names seqno+1 (and the answer echoes it)
+	idFile     bool    // one bit of file_hash of the id in the answer is changed
+	sbFile     bool    // one bit of file_hash of shardblk is changed
+	sbSeq      bool    // shardblk names seqno+1
+	sbSrc      string  // "sb" | "alt" | "sib"                 shardblk
+	spForm     string  // "honest" | "missing" | "trunc" | "one_root"
+	spHdr      string  // "ref" | "alt"                        shard proof: which masterchain block
+	spState    string  // "ref" | "alt"                        shard proof: which masterchain state
+	spPruned   bool    // shard proof: the BinTree leaf is pruned
+	hdrSrc     string  // "sb" | "alt" | "sib"                 proof root 1
+	hdrKeep    string  // "full" | "no_su" | "no_info"
+	stSrc      string  // "sb" | "alt" | "sib"                 proof root 2
+	path       string  // "addr" | "other" | "cut"
+	leaf       string  // "" | "stale" | "rehashed"
+	storedHash bool    // one bit of the hash stored in the Merkle-proof cell of the state proof is changed
+	pForm      string  // "two" | "one_root" | "three" | "swapped" | "not_exotic" | "trunc" | "garbage" | "empty"
+	state      string  // "own" | "other" | "modified" | "empty" | "some"
+	sForm      string  // "one" | "trunc" | "two_roots"
+	extra      float64 // share of further cells revealed in the state proof (still honest: a proof may reveal more than needed)
+	opt        bocOpt
 }
 
 func honestAcct() acctChoice {
@@ -128,6 +129,14 @@ func revealMore(rng *rand.Rand, n *node, ks map[*node]bool, p float64) {
 		}
 		revealMore(rng, k, ks, p)
 	}
+}
+
+func flipBit(b string, i int) string {
+	f := byte('0')
+	if b[i] == '0' {
+		f = '1'
+	}
+	return b[:i] + string(f) + b[i+1:]
 }
 
 func truncated(rng *rand.Rand, b []byte) []byte {
@@ -261,6 +270,9 @@ func (c *acctCtx) build(rng *rand.Rand, ch acctChoice) (*acctAnswer, error) {
 			sp = merkleProofOf(child)
 		}
 	}
+	if ch.storedHash {
+		sp = &node{b: flipBit(sp.b, 8+rng.Intn(256)), x: sp.x, r: sp.r}
+	}
 	switch ch.pForm {
 	case "two":
 		a.proof = writeBoc([]*node{hp, sp}, ch.opt)
@@ -369,6 +381,8 @@ func acctTamper(t string) (acctChoice, error) {
 		ch.leaf = "stale"
 	case "leaf_lt_rehashed":
 		ch.leaf = "rehashed"
+	case "proof_stored_hash":
+		ch.storedHash = true
 	case "proof_one_root":
 		ch.pForm = "one_root"
 	case "proof_three_roots":
@@ -419,6 +433,7 @@ func randomAcctChoice(rng *rand.Rand, c *acctCtx, withblock bool) acctChoice {
 	if c.present && ch.path == "addr" {
 		ch.leaf = pick(rng, p, "", "stale", "rehashed")
 	}
+	ch.storedHash = rng.Float64() < p/3
 	ch.pForm = pick(rng, p, "two", "one_root", "three", "swapped", "not_exotic", "trunc", "garbage", "empty")
 	ch.state = pick(rng, p, "own", "other", "modified", "empty", "some")
 	ch.sForm = pick(rng, p/2, "one", "trunc", "two_roots")
